@@ -34,6 +34,7 @@ type Env struct {
 
 var envDFS *sched.DFS // set by runDriver while a small scenario is being enumerated
 var lockTrace bool    // -locks 1: record which goroutines are simultaneously inside critical sections (C11)
+var gateTrace bool    // -gates 1: record every scheduling decision (goroutine, hook point) as a "step" line (L2 binding)
 
 func NewEnv(mode string, seed int64, strategy string, replay []string, st *Stats, confirm bool, pollPrefixes ...string) *Env {
 	e := &Env{R: rec.New(), Mode: mode, St: st, Confirm: confirm, self: sched.Goid(), before: map[int64]bool{}}
@@ -42,6 +43,10 @@ func NewEnv(mode string, seed int64, strategy string, replay []string, st *Stats
 	}
 	e.Opts = sched.Options{Seed: seed, Strategy: strategy, Replay: replay, PCTDepth: 3, IdleProb: 150, MaxSteps: 6000, PollPrefixes: pollPrefixes, DFS: envDFS}
 	ctl.OnHolders = nil
+	ctl.OnStep = nil
+	if mode == "c" && gateTrace {
+		ctl.OnStep = func(st sched.Step) { e.R.Add(rec.Ev{"ev": "step", "g": st.Role, "pt": st.Pt}) }
+	}
 	if mode == "c" {
 		if lockTrace {
 			ctl.OnHolders = func(held []sched.Arrival) {
@@ -221,6 +226,9 @@ func runDriver(sr scenarioRunner, args map[string]string) {
 	if args["locks"] == "1" {
 		lockTrace = true
 		strategies = []string{"holdlock", "holdlock", "random", "hold"}
+	}
+	if args["gates"] == "1" {
+		gateTrace = true
 	}
 	var fixed any
 	if sf := args["scenario"]; sf != "" {
